@@ -113,7 +113,8 @@ impl World {
 	}
 
 	pub fn coinbase(&self, key_id: &Identifier, fees: u64) -> (Output, TxKernel) {
-		reward::output(&self.kc, &ProofBuilder::new(&self.kc), key_id, fees, false)
+		// test_mode = true: fixed signing nonce, so worlds are reproducible bit for bit
+		reward::output(&self.kc, &ProofBuilder::new(&self.kc), key_id, fees, true)
 			.expect("reward output")
 	}
 
@@ -192,8 +193,18 @@ impl World {
 		let skey = excess.secret_key(secp).expect("skey");
 		kernel.excess = secp.commit(0, skey).expect("excess");
 		let pubkey = kernel.excess.to_pubkey(secp).expect("pubkey");
+		// deterministic signing nonce (from the prng) so that the world is reproducible
+		let snonce = loop {
+			let mut n = [0u8; 32];
+			prng.fill(&mut n);
+			n[0] &= 0x7f;
+			if let Ok(k) = grin_util::secp::key::SecretKey::from_slice(secp, &n) {
+				break k;
+			}
+		};
+		let skey2 = excess.secret_key(secp).expect("skey");
 		kernel.excess_sig =
-			aggsig::sign_with_blinding(secp, &msg, &excess, Some(&pubkey)).expect("sign");
+			aggsig::sign_single(secp, &msg, &skey2, Some(&snonce), Some(&pubkey)).expect("sign");
 		let mut tx = tx.replace_kernel(kernel);
 		tx.offset = offset;
 		(tx, coins)
